@@ -14,7 +14,7 @@ Record phase := mkPh {
 
 Inductive c41case :=
 | CDial (capn n : N) (phases : list phase)
-| CStress (capn n to maxin : N) (accepting : bool) (rs : list (xres * N))
+| CStress (capn n to maxin : N) (accepting : bool) (rs : list (oxres * N))
 | CConsts (default_timeout_ms dns_cache_ms : N)
 | CUnstable.   (* the scenario was disturbed by machine load on every attempt (independent canary): dropped, judges nothing *)
 
@@ -48,17 +48,21 @@ Fixpoint dial_corr (c : dcfg) (s : dstate) (phases : list phase) : bool :=
   | [] => true
   | p :: rest =>
       let s' := run_phase c s p in
-      forallb (fun d : dobs => match d with (t, _, r, _) => option_eqb xres_eqb (result_of s' t) (Some r) end) (ph_results p)
+      forallb (fun d : dobs => match d with
+                           | (t, _, Ret r, _) => option_eqb xres_eqb (result_of s' t) (Some r)
+                           | (_, _, Stuck, _) => false    (* every dial of the transition system run returns *)
+                           end) (ph_results p)
       && (sem s' =? 0) && dial_corr c s' rest
   end.
 
 (* every invariant / consequence of the transition system that the concurrent run can show *)
-Definition stress_corr (capn n to maxin : N) (accepting : bool) (rs : list (xres * N)) : bool :=
+Definition stress_corr (capn n to maxin : N) (accepting : bool) (rs : list (oxres * N)) : bool :=
   ((capn =? 0) || (maxin <=? capn)) &&
   forallb (fun r => match fst r with
-                    | XOk a => accepting && (a <? n)
-                    | XTimeout a => negb accepting && (a <? n)
-                    | XErr _ => false end) rs.
+                    | Ret (XOk a) => accepting && (a <? n)
+                    | Ret (XTimeout a) => negb accepting && (a <? n)
+                    | Ret (XErr _) => false
+                    | Stuck => false end) rs.
 
 Definition corr_ok (c : c41case) : bool :=
   match c with
